@@ -767,3 +767,93 @@ func ruleDBLoad(c *Ctx, prefix string) {
 		c.R.ok(prefix+"DB.KEY-AGREE", "loadRecords key", c.P.Pos(fn.Pos()), shortFn(fn), "loader and handler key the map with HardwareAddr.String() of the address")
 	}
 }
+
+// ruleDBSaveSync: a nil return of saveIPAddress means the row has been executed
+// against the database: every successful exit passed through (*sql.Stmt).Exec /
+// (*sql.DB).Exec whose error was examined and found nil on that path. A save
+// that only queues the row (write-behind) acknowledges a lease the next start
+// does not know.
+func ruleDBSaveSync(c *Ctx, rule string) {
+	fn := c.P.Anchor("saveIPAddress")
+	if fn == nil {
+		c.R.Fatalf("ANCHOR-UNRESOLVED: rangeplugin.saveIPAddress")
+		return
+	}
+	c.R.Functions[shortFn(fn)] = true
+	ex := NewExplorer(c.P, c.Pure, fn)
+	isExec := func(in ssa.Instruction) *ssa.Call {
+		if call, ok := in.(*ssa.Call); ok {
+			if f := call.Call.StaticCallee(); f != nil && fnPkgPath(f) == "database/sql" && strings.HasPrefix(f.Name(), "Exec") {
+				return call
+			}
+		}
+		return nil
+	}
+	var execs []*ssa.Call
+	eachInstr(fn, func(in ssa.Instruction) {
+		if call := isExec(in); call != nil {
+			execs = append(execs, call)
+		}
+	})
+	ex.Hooks.Label = func(st *State, in ssa.Instruction) string {
+		if isExec(in) != nil {
+			return "exec"
+		}
+		return ""
+	}
+	var bad []string
+	nS := 0
+	ex.Hooks.Exit = func(st *State, in ssa.Instruction) {
+		ret, ok := in.(*ssa.Return)
+		if !ok || len(ret.Results) == 0 {
+			return
+		}
+		if n, _ := ex.NilState(st, ret.Results[len(ret.Results)-1]); n != 1 {
+			return // an error (or undecided) return
+		}
+		nS++
+		if !st.seen["exec"] {
+			bad = append(bad, fmt.Sprintf("success is returned at %s on a path that never executed the statement (the lease is acknowledged but not in the database)", c.P.InstrPos(in)))
+			return
+		}
+		okErr := false
+		for _, k := range sortedKeys(st.hist) {
+			f := st.hist[k]
+			if f.Kind == "nil" && f.Val && strings.Contains(f.X, ").Exec") && strings.HasSuffix(f.X, "#1") {
+				okErr = true
+			}
+		}
+		if !okErr {
+			bad = append(bad, fmt.Sprintf("success is returned at %s without the statement's error having been found nil", c.P.InstrPos(in)))
+		}
+	}
+	ex.Run()
+	key := "saveIPAddress executes the row"
+	switch {
+	case len(execs) == 0:
+		c.R.bad(rule, key, c.P.Pos(fn.Pos()), shortFn(fn), "saveIPAddress does not execute any SQL statement itself")
+	case len(bad) > 0:
+		c.R.bad(rule, key, c.P.Pos(fn.Pos()), shortFn(fn), strings.Join(dedup(bad), "; "))
+	case nS == 0:
+		c.R.bad(rule, key, c.P.Pos(fn.Pos()), shortFn(fn), "no successful exit found")
+	default:
+		c.R.ok(rule, key, c.P.Pos(fn.Pos()), shortFn(fn), fmt.Sprintf("all %d successful exits follow an Exec whose error was nil", nS))
+	}
+	// the stdlib MAC parser accepts 6, 8 and 20 bytes only; the keys of the lease table are
+	// HardwareAddr.String() of any length the codec admits: they are parsed by the total parser only
+	total := c.P.Anchor("parseHWAddr")
+	n := 0
+	for _, g := range c.P.SrcFuncs() {
+		if isFixture(g) || closureRoot(g).Pkg != fn.Pkg || g == total {
+			continue
+		}
+		eachOwnInstr(g, func(in ssa.Instruction) {
+			if call, ok := in.(*ssa.Call); ok {
+				if f := call.Call.StaticCallee(); f != nil && f.String() == "net.ParseMAC" {
+					n++
+					c.R.bad(rule, fmt.Sprintf("%s net.ParseMAC#%d", shortFn(g), n), c.P.InstrPos(in), shortFn(g), "a stored hardware address is parsed with net.ParseMAC, which rejects every length other than 6, 8 and 20 bytes: clients with other chaddr lengths are handled differently from the rest")
+				}
+			}
+		})
+	}
+}
